@@ -528,6 +528,11 @@ class Interp:
                 return ("unpacked", fmt, got)
             if name == "decode" and isinstance(recv, BytesV):
                 return DataV("str")
+            if name == "encode" and isinstance(recv, DataV):
+                enc = args[0].const if args and isinstance(args[0], StrV) else (kw_enc if (kw_enc := next((self.expr(k.value, env, effects, f, depth).const for k in e.keywords if k.arg == "encoding" and isinstance(k.value, ast.Constant)), None)) else "utf-8")
+                if isinstance(enc, str) and enc.lower().replace("_", "-") in ("ascii", "us-ascii", "latin-1", "latin1", "iso-8859-1"):
+                    return BytesV(("len", recv.src), src="%s.encode(%s)" % (recv.src, enc))
+                return BytesV(("bytes-of", recv.src, enc), src="%s.encode(%s)" % (recv.src, enc))
             if name in ("to_bytes",):
                 return BytesV(args[0].const if args and isinstance(args[0], IntV) else None)
             return Unknown("%s.%s()" % (getattr(recv, "src", "?"), name))
@@ -648,6 +653,8 @@ class Interp:
                     role = ("flag", val.sym[1], val.sym[2], val.sym[3])
                 elif isinstance(val, IntV) and isinstance(val.sym, tuple) and val.sym[0] in ("len",):
                     role = ("len", val.sym[1])
+                elif isinstance(val, IntV) and isinstance(val.sym, tuple) and val.sym[0] == "bytes-of":
+                    role = ("len", val.sym)
                 effects.append(("W", width, role))
                 return NoneV()
             effects.append(("W", width, "data"))
